@@ -499,8 +499,11 @@ def timezone_name(dt, version=LATEST_VER):
         # UTC?
         return 'UTC'
 
+    # Compare offsets at that instant (not at the naive local time, which may
+    # be ambiguous or skipped in some zone and make pytz raise).
+    dt_utc = pytz.utc.localize(dt_notz - offset)
     for olson_name, haystack_name in list(tz_rmap.items()):
-        if pytz.timezone(olson_name).utcoffset(dt_notz) == offset:
+        if dt_utc.astimezone(pytz.timezone(olson_name)).utcoffset() == offset:
             return haystack_name
 
     raise ValueError('Unable to get timezone of %r' % dt)
